@@ -220,7 +220,9 @@ def gen(repo):
     # ---- the watchdog at the end of each run(): scan period and the three join() arms
     ws_lib = strip_comments(read(repo, "crates/ws/src/lib.rs"))
     for tname, lib in (("udp", udp_lib), ("http", http_lib), ("ws", ws_lib)):
-        m = re.search(r"if\s+handle\.is_finished\(\)\s*\{(.*)\}\s*sleep\(Duration::from_secs\((\d+)\)\)", lib, flags=re.S)
+        # the sleep must come after the END of the for loop over the handles (one scan per period):
+        # four closing braces - last arm, match, if, for - precede it
+        m = re.search(r"if\s+handle\.is_finished\(\)\s*\{(.*)\}\s*\}\s*\}\s*\}\s*sleep\(Duration::from_secs\((\d+)\)\)", lib, flags=re.S)
         if not m:
             raise Missing("watchdog loop (is_finished ... sleep(Duration::from_secs(N))) not found in crates/%s/src/lib.rs" % tname)
         body, period = m.group(1), int(m.group(2))
@@ -236,6 +238,12 @@ def gen(repo):
     guards.append(("udp_clean_keeps_shared_arc",
                    re.search(r"if\s+let\s+Some\(peer_map\)\s*=\s*Arc::get_mut\(peer_map\)\s*\{\s*if\s+peer_map\.read\(\)\.is_empty\(\)\s*\{\s*return\s+false;", udp_swarm) is not None,
                    "crates/udp/src/swarm.rs clean_and_get_statistics phase 2 (Arc::get_mut guard)"))
+    # swarm.rs announce: lookup and insertion of a torrent's cell happen under ONE lock (upgradable
+    # read, upgraded on a miss, entry().or_default()): the model's IAnn1 is one atomic instruction
+    guards.append(("udp_announce_get_or_create_atomic",
+                   re.search(r"\.upgradable_read\(\)", udp_swarm) is not None
+                   and re.search(r"RwLockUpgradableReadGuard::upgrade\(\s*torrent_map_shard\s*\)\s*\.entry\(\s*request\.info_hash\s*\)\s*\.or_default\(\)", udp_swarm) is not None,
+                   "crates/udp/src/swarm.rs TorrentMapShards::announce (upgradable read + upgrade + entry().or_default())"))
     for name, val, src in guards:
         out.append("(* %s *)" % src)
         out.append("Definition %s : bool := %s." % (name, "true" if val else "false"))
